@@ -19,6 +19,11 @@ package verifhook
 
 import (
 	"context"
+	"errors"
+	"os"
+	"strconv"
+	"strings"
+	"sync"
 	"sync/atomic"
 )
 
@@ -33,11 +38,40 @@ func SetHandler(h Handler) {
 	handler.Store(&h)
 }
 
+// A process that has no handler of its own (the command-line paths of the real binary) can be told through the
+// environment to fail one call: VERIF_HOOK_FAIL="<site>#<n>" makes the n-th call (from 1) of that site return an error.
+var (
+	envOnce  sync.Once
+	envSite  string
+	envN     int64
+	envCalls atomic.Int64
+)
+
+func envFail(site string) error {
+	envOnce.Do(func() {
+		if v := os.Getenv("VERIF_HOOK_FAIL"); v != "" {
+			if i := strings.LastIndexByte(v, '#'); i > 0 {
+				if n, err := strconv.ParseInt(v[i+1:], 10, 64); err == nil {
+					envSite, envN = v[:i], n
+				}
+			}
+		}
+	})
+	if envSite == "" || site != envSite {
+		return nil
+	}
+	if envCalls.Add(1) == envN {
+		return errors.New("injected failure (VERIF_HOOK_FAIL)")
+	}
+
+	return nil
+}
+
 // Point marks an instrumentation point.
 func Point(ctx context.Context, site string, args ...any) error {
 	hp, _ := handler.Load().(*Handler)
 	if hp == nil || *hp == nil {
-		return nil
+		return envFail(site)
 	}
 
 	return (*hp)(ctx, site, args...)
